@@ -261,37 +261,66 @@ def inventory(facts):
     return rows
 
 
+def _cmp(want, got):
+    """(status, detail pieces) for one reviewed call site against one current call site"""
+    rest = list(got["lits"])
+    moved, lost = [], []
+    for w in want["lits"]:
+        same = [g for g in rest if g["ids"] == w["ids"] and g["op"] == w["op"] and g["consts"] == w["consts"]]
+        if same:
+            rest.remove(same[0])
+            continue
+        near = [g for g in rest if g["ids"] == w["ids"]]
+        if near:
+            rest.remove(near[0])
+            moved.append((w, near[0]))
+        else:
+            lost.append(w)
+    if moved:
+        return "violated", moved
+    if lost or rest:
+        return "unrecognised", None
+    return "discharged", None
+
+
 def obligations(facts, records=None):
+    """the call sites of one structural operation inside one function are compared as a bag (swapping the branches of an if / else
+    that both call it does not matter): exact matches first, then what is left is paired in source order"""
     sp = json.load(open(os.path.join(VERIF, "spec", "triggers.json")))["triggers"]
     cur = inventory(facts)
     out = []
-    for key, want in sorted(sp.items()):
+    groups = {}
+    for key in sorted(sp):
         if records is not None and not any(key.startswith(r + "::") for r in records):
             continue
-        k = "trigger:" + key
-        what = key.split("->")[1].split("#")[0]
-        if key not in cur:
-            out.append(ob("triggers", k, "", "unrecognised", "the call of `%s` under (%s) is no longer found (refactored?): re-review and update spec/triggers.json" % (key, want["text"]), ""))
-            continue
-        got = cur[key]
-        rest = list(got["lits"])
-        moved, lost = [], []
-        for w in want["lits"]:
-            same = [g for g in rest if g["ids"] == w["ids"] and g["op"] == w["op"] and g["consts"] == w["consts"]]
-            if same:
-                rest.remove(same[0])
-                continue
-            near = [g for g in rest if g["ids"] == w["ids"]]
-            if near:
-                rest.remove(near[0])
-                moved.append((w, near[0]))
+        groups.setdefault(key.rsplit("#", 1)[0], []).append(key)
+    for base, keys in sorted(groups.items()):
+        what = base.split("->")[1]
+        have = [k for k in sorted(cur) if k.rsplit("#", 1)[0] == base]
+        free = list(have)
+        pending = []
+        for key in keys:
+            exact = [h for h in free if _cmp(sp[key], cur[h])[0] == "discharged"]
+            if exact:
+                free.remove(exact[0])
+                out.append(ob("triggers", "trigger:" + key, cur[exact[0]]["loc"], "discharged", cur[exact[0]]["text"], cur[exact[0]]["fn"]))
             else:
-                lost.append(w)
-        if moved:
-            w, g = moved[0]
-            out.append(ob("triggers", k, got["loc"], "violated", "the boundary that triggers %s moved: now %s, reviewed %s (same operands, different %s): the structural operation now happens one step early/late - typically a violated precondition (pivot out of range, full table, capacity exceeded) or unbounded growth" % (what, g["text"], w["text"], "operator" if g["op"] != w["op"] else "constant"), got["fn"]))
-        elif lost or rest:
-            out.append(ob("triggers", k, got["loc"], "unrecognised", "%s is now reached under (%s), reviewed (%s): different operands - re-review" % (what, got["text"], want["text"]), got["fn"]))
-        else:
-            out.append(ob("triggers", k, got["loc"], "discharged", got["text"], got["fn"]))
+                pending.append(key)
+        for key in pending:
+            want = sp[key]
+            k = "trigger:" + key
+            if not free:
+                out.append(ob("triggers", k, "", "unrecognised", "the call of `%s` under (%s) is no longer found (refactored?): re-review and update spec/triggers.json" % (key, want["text"]), ""))
+                continue
+            # prefer a remaining site whose boundary moved (same operands) over an unrelated one
+            cand = [h for h in free if _cmp(want, cur[h])[0] == "violated"] or free
+            h = cand[0]
+            free.remove(h)
+            got = cur[h]
+            status, moved = _cmp(want, got)
+            if status == "violated":
+                w, g = moved[0]
+                out.append(ob("triggers", k, got["loc"], "violated", "the boundary that triggers %s moved: now %s, reviewed %s (same operands, different %s): the structural operation now happens one step early/late - typically a violated precondition (pivot out of range, full table, capacity exceeded) or unbounded growth" % (what, g["text"], w["text"], "operator" if g["op"] != w["op"] else "constant"), got["fn"]))
+            else:
+                out.append(ob("triggers", k, got["loc"], "unrecognised", "%s is now reached under (%s), reviewed (%s): different operands - re-review" % (what, got["text"], want["text"]), got["fn"]))
     return out
